@@ -1,15 +1,229 @@
-(* C03 -- placeholder until the pipeline theorems are integrated *)
-From Coq Require Import ZArith List String Bool.
-From Verif Require Import Value Expr Pipeline PipelineSpec.
+(* C03 -- property theorems: a pipeline is the composition of its stages, each acting as
+   MongoDB defines it.
+   Part A: composition and conservation laws of the pipeline model (no guard).
+   Part B: the guarded equivalence with the specification (Spec/PipelineSpec.v). *)
+From Coq Require Import ZArith List String Bool Ascii Permutation.
+From Verif Require Import Value PyEq Path Update Filter Coll Expr Pipeline PipelineSpec PipelineGuard.
+From Verif Require Import C03Base C03Laws C03Indep C03IndepProject C03Unwind C03Group C03Stages C03Pipeline.
 Import ListNotations.
 Open Scope Z_scope.
 Open Scope string_scope.
-Example C03_pipeline_example :
-  aggregate [] [VDoc [("_id", VInt 1); ("g", VStr "a"); ("n", VInt 2)];
-                VDoc [("_id", VInt 2); ("g", VStr "b"); ("n", VInt 3)];
-                VDoc [("_id", VInt 3); ("g", VStr "a"); ("n", VInt 5)]]
-            (VArr [VDoc [("$match", VDoc [("n", VDoc [("$gt", VInt 2)])])];
-                   VDoc [("$group", VDoc [("_id", VStr "$g"); ("t", VDoc [("$sum", VStr "$n")])])]])
-  = Ok [VDoc [("t", VInt 5); ("_id", VStr "a")]; VDoc [("t", VInt 3); ("_id", VStr "b")]].
-Proof. vm_compute. reflexivity. Qed.
-Print Assumptions C03_pipeline_example.
+Open Scope list_scope.
+
+(* ------------------------------------------------------------------ part A *)
+
+(* 1. running p1 ++ p2 is running p2 on the result of p1 (for pipelines, for the operators
+   of one stage document, and for aggregate) *)
+Theorem C03_composition : forall db p1 p2 docs,
+  run_pipeline db (p1 ++ p2) docs =
+    match run_pipeline db p1 docs with Ok mid => run_pipeline db p2 mid | Err e => Err e end
+  /\ (forall a b, run_ops db (a ++ b) docs =
+        match run_ops db a docs with Ok mid => run_ops db b mid | Err e => Err e end)
+  /\ aggregate db docs (VArr (p1 ++ p2)) =
+    match aggregate db docs (VArr p1) with Ok mid => aggregate db mid (VArr p2) | Err e => Err e end.
+Proof. exact composition_law. Qed.
+Print Assumptions C03_composition.
+
+(* 2. $match keeps, in order, exactly the documents the filter accepts (every call of the
+   matcher answered, so the boolean is decided) *)
+Theorem C03_match_sublist : forall spec l r,
+  match_docs spec l = Ok r ->
+  Forall (fun d => exists b, filter_applies spec (patch d) = Ok b) l /\
+  r = List.filter (fun d => match filter_applies spec (patch d) with Ok true => true | _ => false end) l.
+Proof. exact match_sublist. Qed.
+Print Assumptions C03_match_sublist.
+
+(* 3. $sort permutes; with integer directions it is the function find().sort() uses *)
+Theorem C03_sort_permutation : forall spec l r, agg_sort spec l = Ok r -> Permutation l r.
+Proof. exact agg_sort_perm. Qed.
+Print Assumptions C03_sort_permutation.
+
+Theorem C03_sort_agrees_with_find : forall (spec : list (string * Z)) l,
+  forallb (fun kz => negb (Filter.starts_dollar (fst kz))) spec = true ->
+  agg_sort (map (fun kz => (fst kz, VInt (snd kz))) spec) l = sort_docs spec l.
+Proof. exact sort_agrees_with_find. Qed.
+Print Assumptions C03_sort_agrees_with_find.
+
+(* 4. $skip, $limit, $count *)
+Theorem C03_skip_limit_count : forall db l,
+  (forall n, 0 <= n -> run_stage db "$skip" (VInt n) l = Ok (skipn (Z.to_nat n) l)) /\
+  (forall n, 0 < n -> run_stage db "$limit" (VInt n) l = Ok (firstn (Z.to_nat n) l)) /\
+  (forall name r, run_stage db "$count" (VStr name) l = Ok r ->
+     r = match l with [] => [] | _ => [VDoc [(name, VInt (Z.of_nat (List.length l)))]] end) /\
+  (forall name, name <> "" -> Expr.starts_dollar name = false -> List.length (split_dots name) = 1%nat ->
+     run_stage db "$count" (VStr name) l =
+     Ok (match l with [] => [] | _ => [VDoc [(name, VInt (Z.of_nat (List.length l)))]] end)).
+Proof. exact skip_limit_count. Qed.
+Print Assumptions C03_skip_limit_count.
+
+(* 5. $unwind: on a path through sub-documents, an array of k elements yields k documents,
+   the i-th being the input with the path set to the i-th element and every other top-level
+   field unchanged; a missing / null / empty-array path yields none *)
+Theorem C03_unwind_counts : forall parts d xs,
+  parts <> [] -> plain_get parts d = Some (Some (VArr xs)) ->
+  exists r, unwind_doc parts false None d = Ok r /\
+    List.length r = List.length xs /\
+    forall i x, nth_error xs i = Some x ->
+      exists d', nth_error r i = Some d' /\
+        set_by_dot parts x d = Some d' /\
+        get_by_dot parts d' = Some x /\
+        forall q qs, Some q <> hd_error parts -> get_by_dot (q :: qs) d' = get_by_dot (q :: qs) d.
+Proof. exact unwind_counts_doc. Qed.
+Print Assumptions C03_unwind_counts.
+
+Theorem C03_unwind_none : forall parts ip d,
+  get_by_dot parts d = None \/ get_by_dot parts d = Some VNull \/ get_by_dot parts d = Some (VArr []) ->
+  unwind_doc parts false ip d = Ok [].
+Proof. exact unwind_doc_none. Qed.
+Print Assumptions C03_unwind_none.
+
+Theorem C03_unwind_stage : forall db path l,
+  path_modelled (split_dots path) = true ->
+  Forall (fun d => (exists xs, plain_get (split_dots path) d = Some (Some (VArr xs))) \/
+                   get_by_dot (split_dots path) d = None \/ get_by_dot (split_dots path) d = Some VNull) l ->
+  run_stage db "$unwind" (VStr (String "$"%char path)) l
+    = Ok (flat_map (fun d => match get_by_dot (split_dots path) d with
+                             | Some (VArr xs) => map (fun x => plain_set (split_dots path) (Some x) d) xs
+                             | _ => [] end) l) /\
+  List.length (flat_map (fun d => match get_by_dot (split_dots path) d with
+                             | Some (VArr xs) => map (fun x => plain_set (split_dots path) (Some x) d) xs
+                             | _ => [] end) l)
+  = fold_right (fun d n => (match get_by_dot (split_dots path) d with
+                            | Some (VArr xs) => List.length xs | _ => O end + n)%nat) O l.
+Proof. exact unwind_counts. Qed.
+Print Assumptions C03_unwind_stage.
+
+(* 6. $group: the groups are a partition of the input (their concatenation is a permutation
+   of it, the sizes add up), every group is non-empty, carries the key of its first document,
+   the keys of its other documents are == to it, adjacent groups have keys that are not ==;
+   one output document per group, holding the group key under _id *)
+Theorem C03_group_partition : forall db fields e l r,
+  assoc "_id" fields = Some e ->
+  run_stage db "$group" (VDoc fields) l = Ok r ->
+  exists gs, groups_of e l = Ok gs /\
+    Permutation (List.concat (map snd gs)) l /\
+    fold_right (fun g n => (List.length g + n)%nat) O (map snd gs) = List.length l /\
+    (is_null e = false -> Forall (group_good e) gs /\ adj_distinct gs) /\
+    Forall2 (fun kg out => exists fs, accumulate_group fields [] (snd kg) = Ok fs /\
+                                      out = VDoc (set_key "_id" (fst kg) fs) /\
+                                      get_by_dot ["_id"] out = Some (fst kg)) gs r.
+Proof. exact group_partition. Qed.
+Print Assumptions C03_group_partition.
+
+Theorem C03_group_sum_one : forall db e f l r,
+  f <> "_id" ->
+  run_stage db "$group" (VDoc [("_id", e); (f, VDoc [("$sum", VInt 1)])]) l = Ok r ->
+  exists gs, groups_of e l = Ok gs /\
+    r = map (fun kg => VDoc [(f, VInt (Z.of_nat (List.length (snd kg)))); ("_id", fst kg)]) gs /\
+    Permutation (List.concat (map snd gs)) l /\
+    fold_right (fun g n => (List.length g + n)%nat) O (map snd gs) = List.length l.
+Proof. exact group_sum_one. Qed.
+Print Assumptions C03_group_sum_one.
+
+(* 7. $addFields / $set, $replaceRoot, $project, $lookup rewrite each document independently *)
+Theorem C03_independent : forall db o l1 l2,
+  (forall r1 r2, add_fields o l1 = Ok r1 -> add_fields o l2 = Ok r2 -> add_fields o (l1 ++ l2) = Ok (r1 ++ r2)) /\
+  (forall r, add_fields o (l1 ++ l2) = Ok r ->
+     exists r1 r2, add_fields o l1 = Ok r1 /\ add_fields o l2 = Ok r2 /\ r = r1 ++ r2) /\
+  (forall r, add_fields o l1 = Ok r -> List.length r = List.length l1) /\
+  replace_root o (l1 ++ l2) =
+    match replace_root o l1 with
+    | Ok r1 => match replace_root o l2 with Ok r2 => Ok (r1 ++ r2) | Err e => Err e end
+    | Err e => Err e end /\
+  (forall r, replace_root o l1 = Ok r -> List.length r = List.length l1) /\
+  (forall r1 r2, project_stage o l1 = Ok r1 -> project_stage o l2 = Ok r2 ->
+     project_stage o (l1 ++ l2) = Ok (r1 ++ r2)) /\
+  (forall r, project_stage o l1 = Ok r -> List.length r = List.length l1) /\
+  lookup_stage db o (l1 ++ l2) =
+    match lookup_stage db o l1 with
+    | Ok r1 => match lookup_stage db o l2 with Ok r2 => Ok (r1 ++ r2) | Err e => Err e end
+    | Err e => Err e end /\
+  (forall r, lookup_stage db o l1 = Ok r -> List.length r = List.length l1).
+Proof. exact independent_law. Qed.
+Print Assumptions C03_independent.
+
+(* 8. $lookup attaches under `as` exactly the foreign documents (in their order) on which the
+   equality filter {foreignField: local value} holds; every other field is untouched *)
+Theorem C03_lookup_exact : forall db o l r,
+  lookup_stage db o l = Ok r ->
+  exists ofs from lf ff asn,
+    o = VDoc ofs /\ assoc "from" ofs = Some (VStr from) /\ assoc "localField" ofs = Some (VStr lf) /\
+    assoc "foreignField" ofs = Some (VStr ff) /\ assoc "as" ofs = Some (VStr asn) /\
+    Forall2 (fun d d' =>
+      exists fs, d = VDoc fs /\
+        let q := patch (VDoc [(ff, lookup_query lf d)]) in
+        let joined := List.filter (matches_ok q) (foreign_of db from) in
+        Forall (fun f => exists b, filter_applies q (patch f) = Ok b) (foreign_of db from) /\
+        d' = VDoc (set_key asn (VArr joined) fs) /\
+        assoc asn (set_key asn (VArr joined) fs) = Some (VArr joined) /\
+        forall k, k <> asn -> assoc k (set_key asn (VArr joined) fs) = assoc k fs) l r.
+Proof. exact lookup_exact. Qed.
+Print Assumptions C03_lookup_exact.
+
+(* 9. $facet runs every sub-pipeline on the stage's own input *)
+Theorem C03_facet_same_input : forall db subs l,
+  run_stage db "$facet" (VDoc subs) l =
+  let! outs := facet_outs db subs l in
+  Ok [VDoc (fold_left (fun acc kv => set_key (fst kv) (snd kv) acc) outs [])].
+Proof. exact facet_same_input. Qed.
+Print Assumptions C03_facet_same_input.
+
+Theorem C03_facet_fields : forall db subs l r,
+  run_stage db "$facet" (VDoc subs) l = Ok r ->
+  NoDup (map fst subs) ->
+  exists fs, r = [VDoc fs] /\
+    List.length fs = List.length subs /\
+    forall t stages, In (t, VArr stages) subs ->
+      exists out, run_pipeline db stages l = Ok out /\ assoc t fs = Some (VArr out).
+Proof. exact facet_fields. Qed.
+Print Assumptions C03_facet_fields.
+
+(* ------------------------------------------------------------------ part B *)
+
+(* The guarded equivalence with the specification, for the pipelines whose operators (also
+   inside the sub-pipelines of $facet, recursively) are $match, $sort, $skip, $limit, $count,
+   $unwind without includeArrayIndex, and $facet (c03_covered, Proofs/C03Pipeline.v; the $sort
+   key paths are inside the model).
+
+   The full statement is
+     C03_pipeline : forall db docs p, c03_reasons db docs p = 0 ->
+       aggregate db docs p <> Err EUnmodelled ->
+       agrees (spec_aggregate db docs p) (aggregate db docs p) <> Some false
+   What is missing: $group, $project, $addFields / $set, $replaceRoot, $lookup, $unwind with
+   includeArrayIndex, and every stage downstream of a $group (there the specification and the
+   library differ by the order of the top-level keys and the stream is unordered, so the
+   stage lemmas have to be stated up to that equivalence instead of equality); the
+   expression-evaluating stages would take C04_expression as the premise expr_correct.
+
+   First form: whenever the specification decides and the model is not outside its scope,
+   both fail, or both succeed with the same documents in the same order (rel, in
+   Proofs/C03Stages.v: the stream is ordered, has no set-valued field, holds exactly the
+   model's documents) *)
+Theorem C03_pipeline_partial_rel : forall db docs p,
+  c03_covered p = true -> c03_reasons db docs p = 0 ->
+  match spec_aggregate db docs p, aggregate db docs p with
+  | PUndef, _ => True
+  | _, Err EUnmodelled => True
+  | PErr, Err _ => True
+  | PV s, Ok l => s_docs s = l /\ s_ord s = true /\ s_sets s = []
+  | _, _ => False
+  end.
+Proof. exact pipeline_partial_rel. Qed.
+Print Assumptions C03_pipeline_partial_rel.
+
+(* Second form, with the comparison `agrees` of the specification (it is reflexive on
+   well-formed documents only: no repeated key) *)
+Theorem C03_pipeline_partial : forall db docs p,
+  c03_covered p = true -> c03_reasons db docs p = 0 ->
+  aggregate db docs p <> Err EUnmodelled ->
+  (forall l, aggregate db docs p = Ok l -> Forall (fun d => wf_value d = true) l) ->
+  agrees (spec_aggregate db docs p) (aggregate db docs p) <> Some false.
+Proof. exact pipeline_partial. Qed.
+Print Assumptions C03_pipeline_partial.
+
+(* one stage: specification and model related on related streams *)
+Theorem C03_stage_ok : forall db o op l,
+  covered o op = true -> pipe_reasons db o op l = 0 ->
+  rel (spec_stage db op o (mkStream l true [])) (run_stage db op o l).
+Proof. exact stage_ok_all. Qed.
+Print Assumptions C03_stage_ok.
